@@ -38,6 +38,9 @@ pub enum Cheat<F> {
     /// S enters the opening with weight x^3 + d instead of x^3 (the prover uses a different
     /// masking vector than it committed to)
     MaskMismatch(F),
+    /// a circuit without second-phase gates whose proof nevertheless carries non-identity
+    /// second-phase points (bound into the transcript, everything else honest)
+    JunkPhase2(u64),
 }
 
 struct Fs {
@@ -162,6 +165,9 @@ pub fn own_prove<G: CurveTag>(prog: &Program, seed: u64, cheat: &Cheat<Fr<G>>) -
     }
     let (A_I2, A_O2, S2) = if n2 > 0 {
         (commit_vec(n1..n, &m.a_l, Some(&m.a_r), i2), commit_vec(n1..n, &m.a_o, None, o2), commit_vec(n1..n, &s_l, Some(&s_r), s2))
+    } else if let Cheat::JunkPhase2(sd) = cheat {
+        let jp = |k: u64| -> G { mul(&G::generator(), &crate::scalars::ScalarSpec::Rand(*sd * 3 + k).to_f::<Fr<G>>()).into_affine() };
+        (jp(0), jp(1), jp(2))
     } else {
         (G::zero(), G::zero(), G::zero())
     };
